@@ -51,7 +51,11 @@ parameter list the Go argument list packs to — `CompassAbi`, read from the LAT
 attestation time; when the expected call data cannot be built `VerifyAgainstTX` returns a
 non-sentinel error and nothing is committed: `buildable`, `Res.encodeErr`), the deployed address stored with a compass /
 user deployment, the `(chain, block height)` key of a user deployment inside its contract (one
-deployment per user contract on this chain), one chain.  Core Lean only.
+deployment per user contract on this chain), one chain — the state of ONE chain reference id is
+modelled; what governance does to the SET of supported chains (`AddSupportForNewChain`,
+`RemoveSupportForChain`, of this chain or of any other one) is `Gov` / `gov` at the end of this file:
+the used-transaction store `tx-processed` is a store of the evm MODULE, not of a chain, and none of
+these operations reads or writes it.  Core Lean only.
 -/
 import PalomaModel.Model.SignBytes
 import PalomaModel.Model.Libcons
@@ -565,5 +569,53 @@ def step (s : St) (op : Op) : St :=
 def run (s : St) : List Op → St
   | [] => s
   | op :: ops => run (step s op) ops
+
+/-! ## governance over the set of supported chains
+
+x/evm/keeper/keeper.go — `AddSupportForNewChain` (a new `ChainInfo` under a new chain reference id, then
+`TryDeployingLastCompassContractToAllChains`) and `RemoveSupportForChain` (`chainInfoStore.Delete(id)`,
+then `RemoveConsensusQueue` for each of that chain's consensus queues: every message stored there is
+deleted).  Neither touches the store `tx-processed`: it is keyed by the transaction hash alone, under
+the store key of the evm module, shared by all chains.  So for the state of THIS chain:
+
+* another chain is added or removed: nothing the router reads changes (a compass deployment scheduled on
+  this chain as a side effect is ordinary keeper activity: `Op.setChain` / `Op.enqueue`);
+* this chain is removed: its queue is emptied — one `Remove` per stored message — and the
+  used-transaction set STAYS;
+* this chain is added again: keeper activity (`Op.setChain` tells the new chain record).
+
+`gov` is therefore DEFINED as a run of existing history ops (`govOps`), so that every theorem over
+histories (`tx_single_use`, `used_tx_never_accepted_again`, …) covers histories with chain governance in
+them (`Props/C07.lean` §13). -/
+
+inductive Gov where
+  | addOther       -- `AddSupportForNewChain` for another chain reference id
+  | removeOther    -- `RemoveSupportForChain` of another chain
+  | removeThis     -- `RemoveSupportForChain` of this chain
+  | addThis        -- `AddSupportForNewChain` of this chain reference id after it was removed
+deriving Repr, DecidableEq, Inhabited
+
+/-- the history ops a governance operation amounts to, in the state it meets -/
+def govOps (s : St) (g : Gov) : List Op :=
+  match g with
+  | .removeThis => s.queue.map fun m => Op.remove m.id
+  | _ => []
+
+def gov (s : St) (g : Gov) : St := run s (govOps s g)
+
+/-- histories with chain governance in them -/
+inductive Ev where
+  | op (o : Op)
+  | gov (g : Gov)
+deriving Repr, Inhabited
+
+def stepE (s : St) (e : Ev) : St :=
+  match e with
+  | .op o => step s o
+  | .gov g => gov s g
+
+def runE (s : St) : List Ev → St
+  | [] => s
+  | e :: es => runE (stepE s e) es
 
 end Paloma.Attest
